@@ -151,9 +151,9 @@ def evaluate(cases, want=None):
     for c in cases:
         base_types.setdefault(T.tts(c["ty"]), c["ty"])
     keys = list(base_types)
-    hc = [{"id": i, "ty": k, "mappings": None} for i, k in enumerate(keys)]
+    hc = [{"id": i, "ty": T.src(base_types[k]), "printed": k, "mappings": None} for i, k in enumerate(keys)]
     base_obs = dict(zip(keys, vlib.run_harness("c18-emit", hc, per_case_timeout=20)))
-    hcases = [{"id": i, "ty": T.tts(c["ty"]), "mappings": c["mappings"]} for i, c in enumerate(cases)]
+    hcases = [{"id": i, "ty": T.src(c["ty"]), "printed": T.tts(c["ty"]), "mappings": c["mappings"]} for i, c in enumerate(cases)]
     obs = vlib.run_harness("c18-emit", hcases, per_case_timeout=20)
     sexps = []
     for c, o in zip(cases, obs):
